@@ -36,7 +36,12 @@ OUTSIDE = [
     "the format readers (np.load, astropy.io.fits, np.loadtxt, csv sniffing, pandas): C / third-party parsers; "
     "the first sentence of the statement is not decided here",
 ]
-ASSUMPTIONS = ["rewriting a file changes its modification time or size (file-system contract)"]
+ASSUMPTIONS = ["rewriting a file changes its modification time (at the nanosecond resolution os.stat reports) or its size (file-system contract); "
+               "rewrites that leave both unchanged are outside the claim"]
+# second version of the file relative to the first: (change of st_mtime_ns, change of size in bytes)
+REWRITES = {"same_second_same_size_1ns": (1, 0), "same_second_same_size_50ms": (50_000_000, 0), "next_second_same_size": (1_000_000_000, 0),
+            "crosses_second_same_size": (900_000_000, 0), "same_mtime_size_plus_1": (0, 1), "older_mtime_same_size": (-1_000_000_000, 0),
+            "same_second_older_same_size": (-1_000, 0)}
 EXPLANATION = (
     "fit_into_array is executed with symbolic offsets; np.intersect1d forks on membership, which enumerates the "
     "finitely many overlap configurations while the no-overlap regions stay symbolic half-lines; per path z3 "
@@ -62,6 +67,8 @@ def tasks(tier, seed):
             out.append({"fn": "align", "kwargs": {"ish": list(ish), "osh": list(osh)}, "label": f"fit/align/{lab}"})
     for model in ("raw", "load_image", "load_charge"):
         out.append({"fn": "fresh", "kwargs": {"model": model}, "label": f"cache/{model}"})
+        for case in REWRITES:
+            out.append({"fn": "fresh", "kwargs": {"model": model, "case": case}, "label": f"cache/{model}/{case}"})
     return out
 
 
@@ -176,10 +183,15 @@ def align(ish, osh):
 
 
 # -- freshness --------------------------------------------------------------------------------
-def _rewrite(path, n):
+def _rewrite(path, n, case=None):
+    t0, size0 = 1_000_000_000 * 1000 + 200_000_000, 16
+    if case is None or n == 1:
+        t, size = (t0, size0) if case is not None else (1_000_000_000 * (1000 + n), 10 + n)
+    else:
+        t, size = t0 + REWRITES[case][0], size0 + REWRITES[case][1]
     with open(path, "wb") as fh:
-        fh.write(b"x" * (10 + n))
-    os.utime(path, ns=(1_000_000_000 * (1000 + n), 1_000_000_000 * (1000 + n)))
+        fh.write(b"x" * size)
+    os.utime(path, ns=(t, t))
 
 
 def _load_via(model, det, path, im):
@@ -204,7 +216,7 @@ def _load_via(model, det, path, im):
     raise AssertionError(model)
 
 
-def _fresh_run(model, A, B, symbolic):
+def _fresh_run(model, A, B, symbolic, case=None):
     import numpy as np
 
     from pyxel.util import image as im
@@ -234,11 +246,11 @@ def _fresh_run(model, A, B, symbolic):
                 p.numpy("pyxel.models.photon_collection.load_image", "pyxel.models.charge_generation.load_charge",
                         "pyxel.data_structure.photon", "pyxel.data_structure.charge", "pyxel.data_structure.array")
             store[path] = A
-            _rewrite(path, 1)
+            _rewrite(path, 1, case)
             r1 = _load_via(model, det, path, im)
             r1 = r1.copy()
             store[path] = B
-            _rewrite(path, 2)
+            _rewrite(path, 2, case)
             r2 = _load_via(model, det, path, im)
             r2 = r2.copy()
     finally:
@@ -251,13 +263,14 @@ def _fresh_run(model, A, B, symbolic):
     return r1, r2
 
 
-def fresh(model):
+def fresh(model, case=None):
     A, B = sym_array("A", (2, 2)), sym_array("B", (2, 2))
     for e in A.elems() + B.elems():
         vx.assume(e >= 0, "file contents are non-negative (photon / charge inputs)")
-    r1, r2 = _fresh_run(model, A, B, True)
-    vx.prove(f"C20/cache/first_load/{model}", arr_eq(r1, A))
-    vx.prove(f"C20/cache/fresh_after_rewrite/{model}", arr_eq(r2, B))
+    r1, r2 = _fresh_run(model, A, B, True, case)
+    lab = model if case is None else f"{model}/{case}"
+    vx.prove(f"C20/cache/first_load/{lab}", arr_eq(r1, A))
+    vx.prove(f"C20/cache/fresh_after_rewrite/{lab}", arr_eq(r2, B))
 
 
 def replay(oid, kwargs, model, data):
@@ -268,7 +281,7 @@ def replay(oid, kwargs, model, data):
     if data["fn"] == "fresh":
         A = np.array([float(model[f"A_{i}"]) for i in range(4)]).reshape(2, 2)
         B = np.array([float(model[f"B_{i}"]) for i in range(4)]).reshape(2, 2)
-        r1, r2 = _fresh_run(kwargs["model"], A, B, False)
+        r1, r2 = _fresh_run(kwargs["model"], A, B, False, kwargs.get("case"))
         bad = not np.allclose(r1, A) or not np.allclose(r2, B)
         return bad, {"first": np.asarray(r1).tolist(), "second": np.asarray(r2).tolist(), "file_after_rewrite": B.tolist()}
     ish, osh = tuple(kwargs["ish"]), tuple(kwargs["osh"])
